@@ -160,7 +160,7 @@ struct Puppet12::Impl {
     Bytes rbuf, hbuf; bool hbuf_enc = false;
     std::map<int, Bytes> last_sent;
     // negotiated / observed
-    bool ems = false, resumed_ = false, client_offers_ems = false, client_reneg = false, client_ticket = false, cr_seen = false, peer_cert = false;
+    bool ems = false, resumed_ = false, client_offers_ems = false, client_reneg = false, client_ticket = false, cr_seen = false, peer_cert = false; size_t ch_ticket_len = 0;
     int sig_ok = -1; bool ccs_seen = false, fin_seen = false, fin_ok = false; int al_level = -1, al_desc = -1; bool fatal = false;
     Bytes app_in; std::string err; std::vector<Seen> seen; uint16_t peer_suite_ = 0; std::vector<uint16_t> offered; Bytes ch_sid;
 
@@ -185,7 +185,8 @@ struct Puppet12::Impl {
         else { Bytes seed = client_random; app(seed, server_random); master = prf(cfg.version, premaster, "master secret", seed, 48); }
         have_master = true; have_keys = false;
     }
-    void ensure_master() { if (!have_master) compute_master(); }   // fall-back: whatever premaster exists (possibly empty)
+    bool override_master() { if (cfg.master_override.size() != 48) return false; master = cfg.master_override; have_master = true; have_keys = false; return true; }
+    void ensure_master() { if (!have_master && !override_master()) compute_master(); }   // fall-back: whatever premaster exists (possibly empty)
     void derive_keys() {
         ensure_master();
         Bytes seed = server_random; app(seed, client_random);
@@ -305,7 +306,7 @@ struct Puppet12::Impl {
     }
     Bytes build_server_hello() {
         server_random = rnd(32);
-        if (cfg.resume.valid() && ch_sid == cfg.resume.id) { resumed_ = true; session_id = cfg.resume.id; master = cfg.resume.master; have_master = true; have_keys = false; }
+        if (cfg.resume.valid() && ch_sid == cfg.resume.id) { resumed_ = true; session_id = cfg.resume.id; master = cfg.resume.master; have_master = true; have_keys = false; override_master(); }
         else session_id = rnd(32);
         ems = cfg.ems && client_offers_ems;
         Bytes b; put16(b, cfg.version); app(b, server_random); b.push_back((uint8_t) session_id.size()); app(b, session_id);
@@ -428,7 +429,7 @@ struct Puppet12::Impl {
                 if (n < 35) { fail("short ServerHello"); break; }
                 server_random.assign(p + 2, p + 34); size_t sl = p[34]; if (35 + sl + 3 > n) { fail("bad ServerHello"); break; }
                 Bytes sid(p + 35, p + 35 + sl); size_t o = 35 + sl; peer_suite_ = (uint16_t) (p[o] << 8 | p[o + 1]); o += 3;
-                if (cfg.resume.valid() && !sid.empty() && sid == cfg.resume.id) { resumed_ = true; master = cfg.resume.master; have_master = true; have_keys = false; }
+                if (cfg.resume.valid() && !sid.empty() && sid == cfg.resume.id) { resumed_ = true; master = cfg.resume.master; have_master = true; have_keys = false; override_master(); }
                 session_id = sid; ems = false;
                 if (o + 2 <= n) { size_t el = (size_t) (p[o] << 8 | p[o + 1]); o += 2; size_t end = std::min(n, o + el);
                     while (o + 4 <= end) { unsigned et = (unsigned) (p[o] << 8 | p[o + 1]), l = (unsigned) (p[o + 2] << 8 | p[o + 3]); o += 4; if (et == 0x0017) ems = cfg.ems; o += l; } }
@@ -457,10 +458,10 @@ struct Puppet12::Impl {
                 size_t cl = (size_t) (p[o] << 8 | p[o + 1]); o += 2; offered.clear(); client_reneg = false;
                 for (size_t i = 0; i + 1 < cl && o + i + 1 < n; i += 2) { uint16_t s = (uint16_t) (p[o + i] << 8 | p[o + i + 1]); offered.push_back(s); if (s == 0x00FF) client_reneg = true; }
                 o += cl; if (o < n) o += 1 + p[o];
-                client_offers_ems = client_ticket = false;
+                client_offers_ems = client_ticket = false; ch_ticket_len = 0;
                 if (o + 2 <= n) { size_t el = (size_t) (p[o] << 8 | p[o + 1]); o += 2; size_t end = std::min(n, o + el);
                     while (o + 4 <= end) { unsigned et = (unsigned) (p[o] << 8 | p[o + 1]), l = (unsigned) (p[o + 2] << 8 | p[o + 3]); o += 4;
-                        if (et == 0x0017) client_offers_ems = true; if (et == 0xff01) client_reneg = true; if (et == 0x0023) client_ticket = true; o += l; } }
+                        if (et == 0x0017) client_offers_ems = true; if (et == 0xff01) client_reneg = true; if (et == 0x0023) { client_ticket = true; ch_ticket_len = l; } o += l; } }
                 break;
             }
             case M_CERTIFICATE: parse_peer_cert(p, n); break;
@@ -549,6 +550,8 @@ const Bytes &Puppet12::app_in() const { return p->app_in; }
 const std::string &Puppet12::error() const { return p->err; }
 uint16_t Puppet12::peer_suite() const { return p->peer_suite_; }
 const std::vector<uint16_t> &Puppet12::offered_suites() const { return p->offered; }
+const Bytes &Puppet12::client_hello_session_id() const { return p->ch_sid; }
+size_t Puppet12::client_hello_ticket_len() const { return p->ch_ticket_len; }
 bool Puppet12::have_master() const { return p->have_master; }
 Bytes Puppet12::master_secret() const { return p->master; }
 const Bytes &Puppet12::transcript() const { return p->transcript; }
@@ -568,7 +571,7 @@ std::vector<Step> legal_script(const Config &cfg, bool resumed) {
         add(M_CCS); add(M_FINISHED);
     } else {
         add(M_SERVER_HELLO);
-        if (!resumed) { add(M_CERTIFICATE); if (ecdhe) add(M_SERVER_KEY_EXCHANGE); if (cfg.client_auth) add(M_CERTIFICATE_REQUEST); add(M_SERVER_HELLO_DONE); }
+        if (!resumed) { add(M_CERTIFICATE); if (ecdhe) add(M_SERVER_KEY_EXCHANGE); if (cfg.client_auth) add(M_CERTIFICATE_REQUEST); add(M_SERVER_HELLO_DONE); if (cfg.ack_ticket_ext) add(M_NEW_SESSION_TICKET); }
         add(M_CCS); add(M_FINISHED);
     }
     return s;
